@@ -547,45 +547,39 @@ func drawSrv(rt *rapid.T, o srvDrawOpts) SrvScenario {
 		sc.LRUSize = rapid.SampledFrom([]int{1, 2, 3, 1024}).Draw(rt, "lru")
 		sc.WRSTimeout = rapid.SampledFrom([]int{0, 0, 5}).Draw(rt, "wrs")
 	}
-	nc := rapid.IntRange(1, o.maxClients).Draw(rt, "clients")
-	for c := 0; c < nc; c++ {
-		nq := rapid.IntRange(1, o.maxQueries).Draw(rt, "queries")
-		var qs []SrvQuery
-		for k := 0; k < nq; k++ {
-			q := SrvQuery{
-				Q:       rapid.IntRange(0, len(gen.Queries)-1).Draw(rt, "q"),
-				Client:  rapid.IntRange(0, len(gen.Clients)-1).Draw(rt, "client"),
-				EDNS:    rapid.Bool().Draw(rt, "edns"),
-				SleepMs: rapid.SampledFrom([]int{0, 0, 0, 3, 19, 41, 83}).Draw(rt, "qsleep"),
-			}
-			if o.ecs && rapid.IntRange(0, 3).Draw(rt, "has_ecs") == 0 {
-				q.ECS = rapid.IntRange(1, len(srvECS)).Draw(rt, "ecs")
-			}
-			qs = append(qs, q)
+	backend := sc.Backend
+	genQuery := rapid.Custom(func(rt *rapid.T) SrvQuery {
+		q := SrvQuery{
+			Q:       rapid.IntRange(0, len(gen.Queries)-1).Draw(rt, "q"),
+			Client:  rapid.IntRange(0, len(gen.Clients)-1).Draw(rt, "client"),
+			EDNS:    rapid.Bool().Draw(rt, "edns"),
+			SleepMs: rapid.SampledFrom([]int{0, 0, 0, 3, 19, 41, 83}).Draw(rt, "qsleep"),
 		}
-		sc.Clients = append(sc.Clients, qs)
-	}
-	no := rapid.IntRange(0, o.maxOps).Draw(rt, "ops")
-	for i := 0; i < no; i++ {
+		if o.ecs && rapid.IntRange(0, 3).Draw(rt, "has_ecs") == 0 {
+			q.ECS = rapid.IntRange(1, len(srvECS)).Draw(rt, "ecs")
+		}
+		return q
+	})
+	sc.Clients = rapid.SliceOfN(rapid.SliceOfN(genQuery, 1, o.maxQueries), 1, o.maxClients).Draw(rt, "clients")
+	genOp := rapid.Custom(func(rt *rapid.T) SrvOp {
 		op := SrvOp{Kind: "reload"}
 		if o.jumps && rapid.IntRange(0, 4).Draw(rt, "is_jump") == 0 {
-			op = SrvOp{Kind: "jump", JumpS: rapid.SampledFrom([]int{1, 4, 6, 999, 1001}).Draw(rt, "jump_s")}
-			sc.Ops = append(sc.Ops, op)
-			continue
+			return SrvOp{Kind: "jump", JumpS: rapid.SampledFrom([]int{1, 4, 6, 999, 1001}).Draw(rt, "jump_s")}
 		}
 		op.Full = rapid.Bool().Draw(rt, "full")
 		if rapid.IntRange(0, 2).Draw(rt, "faulty") == 0 && len(o.faults) > 0 {
 			op.Fault = rapid.SampledFrom(o.faults).Draw(rt, "fault")
 		}
-		if sc.Backend != "cdb" && !op.Full && (op.Fault == "missing" || op.Fault == "garbage") {
+		if backend != "cdb" && !op.Full && (op.Fault == "missing" || op.Fault == "garbage") {
 			op.Fault = "inject" // a RocksDB directory in use cannot be removed or trashed meaningfully
 		}
 		op.DelayMs = rapid.SampledFrom([]int{0, 0, 0, 0, 7, 23, 61, 97}).Draw(rt, "delay")
 		op.After = rapid.Bool().Draw(rt, "after")
 		op.Decoy = op.Full && rapid.Bool().Draw(rt, "decoy")
 		op.SleepMs = rapid.SampledFrom([]int{0, 0, 5, 31, 59}).Draw(rt, "osleep")
-		sc.Ops = append(sc.Ops, op)
-	}
+		return op
+	})
+	sc.Ops = rapid.SliceOfN(genOp, 0, o.maxOps).Draw(rt, "ops")
 	if o.closeOp && rapid.IntRange(0, 1).Draw(rt, "has_close") == 0 {
 		pos := rapid.IntRange(0, len(sc.Ops)).Draw(rt, "close_at")
 		ops := append([]SrvOp{}, sc.Ops[:pos]...)
